@@ -267,7 +267,7 @@ def run_property(pid, tier, jobs, nontrivial_rule, nontrivial_fn, model_runs=Non
                               % (t['meta'].get('label'), t['meta']['scheduler'], t['meta']['policy'], t['meta']['seed'], fin['wf'],
                                  sorted(map(tuple, fin['tasks'])), presc.effective_outcomes(t)),
                               {'yaml': t['meta'].get('yaml'), 'meta': {k: v for k, v in t['meta'].items() if k not in ('yaml',)},
-                               'final': fin, 'effective_outcomes': presc.effective_outcomes(t), 'events': [s_['ev'] for s_ in t['steps']],
+                               'final': fin, 'effective_outcomes': presc.effective_outcomes(t), 'events': [s_['ev'] for s_ in t['steps']], 'job': t.get('job'),
                                'failing_step': len(t['steps']), 'obs_at_failure': t['steps'][-1]['obs'],
                                'oracle': {k: v['outcome'] for k, v in t['prog']['tasks'].items()}})
         strict_info['outcomes_judged_by_WfSemantics'] = njudged
@@ -329,9 +329,40 @@ def run_property(pid, tier, jobs, nontrivial_rule, nontrivial_fn, model_runs=Non
 
 
 def replay(pid, path):
-    """Re-execute the stored definition + schedule parameters against the current tree and re-judge."""
-    import yaml as _yaml  # noqa
-    rp = json.load(open(path))['replay']
-    print(json.dumps({k: rp[k] for k in ('meta', 'failing_step') if k in rp})[:2000])
-    print(rp.get('yaml', ''))
+    """Re-execute the stored definition under the stored schedule parameters (scheduler, policy, seed, operator
+    commands, duplicates, id order) against the current tree, let TLC judge the new run with the same formulas, and
+    say whether the stored clause fails again.  Exit 1 (with a VIOLATION line) if it does, 0 if the run is clean."""
+    import pickle
+    doc = json.load(open(path))
+    rp = doc['replay']
+    meta = rp.get('meta', {})
+    clause = doc['signature'].get('clause')
+    print('replaying %s: clause %s, run [%s scheduler=%s policy=%s seed=%s ops=%s]' % (path, clause, meta.get('label'), meta.get('scheduler'),
+                                                                                    meta.get('policy'), meta.get('seed'), meta.get('ops')))
+    job = rp.get('job')
+    if not job:
+        print(rp.get('yaml', ''))
+        print('this replay file carries no executable job description (written by an older version); nothing re-executed')
+        return 2
+    import base64
+    job = pickle.loads(base64.b64decode(job))
+    d = common.builddir(pid.lower() + '_replay', clean=True)
+    traces = engcheck.run_jobs([job])
+    if 'error' in traces[0]:
+        raise common.MachineryError(traces[0]['error'])
+    viols, st, tr = engcheck.judge(d, traces)
+    failed = sorted(set(c for lst in viols.values() for (l, c) in lst))
+    bad_presc = False
+    if clause == 'Prescribed':
+        from harness import prescribed as presc
+        bad, nj, _, _ = presc.judge(d, traces)
+        bad_presc = bool(bad)
+    t = traces[0]
+    print('events: ' + ' '.join('%s:%s%s' % (s_['ev']['kind'], s_['ev']['what'], ('/' + s_['ev']['phase']) if s_['ev']['phase'] else '') for s_ in t['steps']))
+    print('final: wf %s tasks %s' % ([(w['sid'], w['state']) for w in t['steps'][-1]['obs']['wf']], [(x['sid'], x['state']) for x in t['steps'][-1]['obs']['tk']]))
+    print('clauses false in the re-executed run: %s' % (failed + (['Prescribed'] if bad_presc else [])))
+    if clause in failed or bad_presc:
+        print('VIOLATION property=%s replay=%s' % (pid, path))
+        return 1
+    print('the stored clause holds in the re-executed run')
     return 0
